@@ -7,6 +7,8 @@ Prints one JSON line."""
 import sys, os, subprocess, json, shutil, time, tempfile
 
 patch, demo, props = sys.argv[1], sys.argv[2], sys.argv[3:]
+REPO = os.environ.get('SEED_REPO', '/repo')      # the tree the patch is applied to and the checks run against
+VERIF = os.environ.get('SEED_VERIF', '/verif')
 res = {'patch': patch, 'props': {}}
 env = dict(os.environ, OMP_NUM_THREADS='2')
 wt = tempfile.mkdtemp(prefix='sv_', dir='/tmp')
@@ -22,23 +24,23 @@ try:
         r1 = subprocess.run(['/venv/bin/python', demo], cwd=wt, env=dict(env, PYTHONPATH=wt), capture_output=True, timeout=900)
         res['demo_clean'] = r0.returncode; res['demo_patched'] = r1.returncode
         diff = subprocess.run(['git', '-C', wt, 'diff'], capture_output=True).stdout
-        st = subprocess.run(['git', '-C', '/repo', 'status', '--porcelain', '--untracked-files=no'], capture_output=True).stdout.decode().strip()
+        st = subprocess.run(['git', '-C', REPO, 'status', '--porcelain', '--untracked-files=no'], capture_output=True).stdout.decode().strip()
         if st:
-            res['error'] = '/repo is dirty: ' + st
+            res['error'] = REPO + ' is dirty: ' + st
         else:
-            p = subprocess.run(['git', '-C', '/repo', 'apply'], input=diff, capture_output=True)
+            p = subprocess.run(['git', '-C', REPO, 'apply'], input=diff, capture_output=True)
             try:
                 if p.returncode == 0:
                     for pr in props:
                         t = time.time()
-                        c = subprocess.run(['./check', pr, '--tier', 'quick'], cwd='/verif', capture_output=True, timeout=1800)
+                        c = subprocess.run(['./check', pr, '--tier', 'quick'], cwd=VERIF, capture_output=True, timeout=1800, env=dict(os.environ, VERIF_REPO=REPO))
                         out = c.stdout.decode()
                         viol = [l for l in out.split('\n') if l.startswith('VIOLATION')]
                         res['props'][pr] = {'exit': c.returncode, 'violation': viol[:1], 'first': [l for l in out.split('\n') if l.startswith(('FAILING-INPUT', 'BROKEN'))][:2], 'wall': round(time.time() - t, 1)}
                 else:
                     res['error'] = 'patch does not apply to /repo: ' + p.stderr.decode()[:200]
             finally:
-                subprocess.check_call(['git', '-C', '/repo', 'checkout', '--', '.'])
+                subprocess.check_call(['git', '-C', REPO, 'checkout', '--', '.'])
 finally:
     subprocess.run(['git', '-C', '/repo', 'worktree', 'remove', '--force', wt], capture_output=True)
     shutil.rmtree(wt, ignore_errors=True)
